@@ -243,4 +243,180 @@ def c15Step (st : St) (op impl : String) : St × String × String :=
       | none => if impl == "invalid" ∧ idLen id = 0 then (st, "invalid", "ok") else (st, m, "viol:unparseable-output")
   | _ => bad
 
-def main : IO Unit := Drv.main { init := ⟨[], []⟩, step := c15Step }
+/-! ### compat WriteBatch and slot-FSM op kinds -/
+
+inductive WSub where
+  | up (id ty : String) (tyI : Int) (c : Meta)
+  | cr (id ty : String) (tyI : Int) (c : Meta)
+  | del (id ty : String) (tyI : Int)
+  | adv (id ty : String) (tyI : Int) (r : Advance)
+
+def WSub.key : WSub → String × Int
+  | .up id ty tyI _ => (keyOf id ty, tyI)
+  | .cr id ty tyI _ => (keyOf id ty, tyI)
+  | .del id ty tyI => (keyOf id ty, tyI)
+  | .adv id ty tyI _ => (keyOf id ty, tyI)
+
+def WSub.id : WSub → String
+  | .up id _ _ _ => id | .cr id _ _ _ => id | .del id _ _ => id | .adv id _ _ _ => id
+
+def wsub? (s : String) : Option WSub :=
+  match s.splitOn "," with
+  | kind :: id :: ty :: rest =>
+    match i64? ty with
+    | none => none
+    | some tyI =>
+      if kind == "u" then (cand? tyI rest).map (WSub.up id ty tyI)
+      else if kind == "c" then (cand? tyI rest).map (WSub.cr id ty tyI)
+      else if kind == "d" then (if rest.isEmpty then some (WSub.del id ty tyI) else none)
+      else if kind == "a" then
+        match rest with
+        | [ece, ele, eld, els, rs, ra] =>
+          match u64? ece, u64? ele, u64? eld, i64? els, u64? rs, i64? ra with
+          | some ece, some ele, some eld, some els, some rs, some ra => some (WSub.adv id ty tyI ⟨ece, ele, eld, els, rs, ra⟩)
+          | _, _, _, _, _, _ => none
+        | _ => none
+      else none
+  | _ => none
+
+def wkeys (subs : List WSub) : List (String × Int) :=
+  subs.foldl (fun acc s => if acc.any (fun p => p.1 == s.key.1) then acc else acc ++ [s.key]) []
+
+/-- one compat WriteBatch: staging validates upsert/create/delete arguments; commit runs the staged ops
+    in order over an overlay; the first conflict / not-found fails the whole commit -/
+def runWBatch (store : Store) (subs : List WSub) : String × String × String × Store :=
+  let staged := subs.map (fun s =>
+    let ok : Bool := match s with
+      | .up id _ _ c => validate (idLen id) c
+      | .cr id _ _ c => validate (idLen id) (normalize c)
+      | .del id _ _ => decide (¬ (idLen id = 0 ∨ idLen id > 65535))
+      | .adv _ _ _ _ => true
+    (s, ok))
+  let flags := String.ofList (staged.map (fun p => if p.2 then 's' else 'i'))
+  let go := staged.foldl (fun (acc : Except String (Store × List Char)) p =>
+    match acc with
+    | .error e => .error e
+    | .ok (ov, cr) =>
+      if ¬ p.2 then .ok (ov, cr) else
+      let k := p.1.key.1
+      match p.1 with
+      | .up id _ _ c =>
+        match upsert (idLen id) (sget ov k) c with
+        | (_, .conflict) => .error "conflict"
+        | (row, .applied) => .ok (sset ov k row, cr)
+        | (_, _) => .ok (ov, cr)
+      | .cr id _ _ c =>
+        match create (idLen id) (sget ov k) c with
+        | (row, .created) => .ok (sset ov k row, cr ++ ['1'])
+        | (_, _) => .ok (ov, cr ++ ['0'])
+      | .del id _ _ => .ok (sset ov k (wdelete (idLen id) (sget ov k)).1, cr)
+      | .adv _ _ _ r =>
+        match wadvance (sget ov k) r with
+        | (_, .notfound) => .error "notfound"
+        | (_, .conflict) => .error "conflict"
+        | (row, _) => .ok (sset ov k row, cr)) (.ok (store, []))
+  match go with
+  | .error e => (flags, e, "-", store)
+  | .ok (ov, cr) => (flags, "ok", if cr.isEmpty then "-" else String.ofList cr, ov)
+
+/-- one slot-FSM command (ApplyBatch of a single multiraft.Command) -/
+def runFsm (store : Store) (subs : List WSub) : String × String × Store :=
+  match subs with
+  | [.up id ty _ c] =>
+    let k := keyOf id ty
+    match upsert (idLen id) (sget store k) (fsmCand c) with
+    | (_, .invalid) => ("invalid", "-", store)
+    | (_, .conflict) => ("conflict", "-", store)
+    | (row, .applied) => ("ok", "-", sset store k row)
+    | (_, _) => ("ok", "-", store)
+  | [.del id ty _] =>
+    let k := keyOf id ty
+    match wdelete (idLen id) (sget store k) with
+    | (_, .invalid) => ("invalid", "-", store)
+    | (row, _) => ("ok", "-", sset store k row)
+  | [.adv id ty _ r] =>
+    let k := keyOf id ty
+    match wadvance (sget store k) r with
+    | (_, .notfound) => ("stale_meta", "-", store)
+    | (_, .conflict) => ("conflict", "-", store)
+    | (row, _) => ("ok", "-", sset store k row)
+  | _ =>
+    -- create batch: canonical = normalized items, non-empty id and non-zero type, no duplicate (type, id),
+    -- sorted by (type, id)
+    let items := subs.filterMap (fun s => match s with | .cr id ty tyI c => some (id, ty, tyI, c) | _ => none)
+    if items.length ≠ subs.length ∨ items.isEmpty then ("bad-op", "-", store) else
+    if items.any (fun (id, _, tyI, _) => idLen id = 0 ∨ tyI = 0) then ("encerr", "-", store) else
+    let dup := (wkeys subs).length ≠ subs.length
+    if dup then ("encerr", "-", store) else
+    let sorted := items.mergeSort (fun (a b : String × String × Int × Meta) =>
+      if a.2.2.1 ≠ b.2.2.1 then a.2.2.1 < b.2.2.1 else decide (a.1 ≤ b.1))
+    let go := sorted.foldl (fun (acc : Option (Store × List Char)) it =>
+      match acc with
+      | none => none
+      | some (ov, cr) =>
+        let (id, ty, _, c) := it
+        let k := keyOf id ty
+        match create (idLen id) (sget ov k) (fsmCand c) with
+        | (_, .invalid) => none
+        | (row, .created) => some (sset ov k row, cr ++ ['1'])
+        | (_, _) => some (ov, cr ++ ['0'])) (some (store, []))
+    match go with
+    | none => ("invalid", "-", store)
+    | some (ov, cr) => ("ok", String.ofList cr, ov)
+
+/-- judge + bookkeeping shared by the multi-row ops: `rows` = the `key=row` tokens the implementation printed -/
+def judgeRows (st : St) (model' : Store) (keys : List (String × Int)) (out : String) (delKeys : List String)
+    (rows : List String) (m : String) : St × String × String :=
+  if rows.length ≠ keys.length then (⟨model', st.seen⟩, m, "viol:unparseable-output") else
+  let parsed := (keys.zip rows).map (fun (k, r) =>
+    match r.splitOn "=" with
+    | kk :: _ => if kk ≠ k.1 then none else row? k.2 ((r.drop (kk.length + 1)).toString) |>.map (fun x => (k.1, x))
+    | _ => none)
+  if parsed.any Option.isNone then (⟨model', st.seen⟩, m, "viol:unparseable-output") else
+  let ps := parsed.filterMap id
+  let v := firstBad (ps.map (fun (k, new) =>
+    if delKeys.contains k ∧ ¬ rejected out then
+      -- a delete was part of the committed op: the row may vanish or restart a new incarnation
+      "ok"
+    else judgeRow false out (sget st.seen k) new))
+  let seen' := ps.foldl (fun s (k, new) => sset s k new) st.seen
+  (⟨model', seen'⟩, m, v)
+
+def c15StepW (st : St) (op impl : String) : St × String × String :=
+  let bad := (st, "bad-op", "ok")
+  match fields op with
+  | ["wbt", body] =>
+    match (body.splitOn ";").mapM wsub? with
+    | none => bad
+    | some subs =>
+      let keys := wkeys subs
+      let (flags, commit, created, model') := runWBatch st.model subs
+      let m := flags ++ " " ++ commit ++ " " ++ created ++ " " ++
+        " ".intercalate (keys.map (fun k => k.1 ++ "=" ++ rowStr (sget model' k.1)))
+      let delKeys := subs.filterMap (fun s => match s with | .del id ty _ => some (keyOf id ty) | _ => none)
+      match fields impl with
+      | _ :: c :: _ :: rows =>
+        let out := if c == "ok" then "applied" else if c == "conflict" then "conflict" else if c == "notfound" then "notfound" else "other"
+        if out == "other" then (⟨model', st.seen⟩, m, "viol:unexpected-result:" ++ c)
+        else judgeRows st model' keys out delKeys rows m
+      | _ => (⟨model', st.seen⟩, m, "viol:unparseable-output")
+  | ["fsm", body] =>
+    match (body.splitOn "|").mapM wsub? with
+    | none => bad
+    | some subs =>
+      let keys := wkeys subs
+      let (res, created, model') := runFsm st.model subs
+      if res == "bad-op" then bad else
+      let m := res ++ " " ++ created ++ " " ++
+        " ".intercalate (keys.map (fun k => k.1 ++ "=" ++ rowStr (sget model' k.1)))
+      let delKeys := subs.filterMap (fun s => match s with | .del id ty _ => some (keyOf id ty) | _ => none)
+      match fields impl with
+      | r :: _ :: rows =>
+        let out := if r == "ok" then "applied" else if r == "conflict" then "conflict" else if r == "invalid" then "invalid"
+          else if r == "stale_meta" then "notfound" else if r == "encerr" then "invalid" else "other"
+        if out == "other" then (⟨model', st.seen⟩, m, "viol:unexpected-result:" ++ r)
+        else judgeRows st model' keys out delKeys rows m
+      | _ => (⟨model', st.seen⟩, m, "viol:unparseable-output")
+  | _ => c15Step st op impl
+
+def main : IO Unit := Drv.main { init := ⟨[], []⟩, step := c15StepW }
